@@ -5,6 +5,7 @@ pid = sys.argv[1]
 wt = sys.argv[2]
 n = sys.argv[3] if len(sys.argv) > 3 else '2'
 wave2 = len(sys.argv) > 4 and sys.argv[4] == 'wave2'
+wave3 = len(sys.argv) > 4 and sys.argv[4] == 'wave3'
 for l in open('/verif/properties.jsonl'):
     p = json.loads(l)
     if p['id'] == pid:
@@ -25,4 +26,6 @@ For each change also write a small demonstration program `demo.py` (plain Python
 
 Deliver, under {wt}/_mutants/<k>/ for k = 1..{n}: `patch.diff` (output of `git -C {wt} diff` with ONLY that change applied to the source under dassh/, no test files), `demo.py`, and `notes.md` (which lines changed and why it breaks the property, what specific condition is needed for it to manifest, the test-suite summary line before and after, the demo output with and without the change). Before finishing, leave the worktree source UNMODIFIED (git -C {wt} checkout -- dassh) so only the _mutants directory remains. Do not commit. Reply with a short summary of each mutant.""" + ("""
 
-Diversity: make the changes differ from one another in MECHANISM and FILE (not three index slips in one function). Look beyond the most obvious function for this property: set-up time code (reader, Reactor/Core/Assembly construction, clone/copy logic, caches and memoised values, unit handling), rarely used but valid options and geometries, multi-assembly / multi-region / multi-time-point interactions, and state carried from one step or one call to the next.""" if wave2 else ''))
+Diversity: make the changes differ from one another in MECHANISM and FILE (not three index slips in one function). Look beyond the most obvious function for this property: set-up time code (reader, Reactor/Core/Assembly construction, clone/copy logic, caches and memoised values, unit handling), rarely used but valid options and geometries, multi-assembly / multi-region / multi-time-point interactions, and state carried from one step or one call to the next.""" if wave2 else '') + ("""
+
+Make the three changes of three different KINDS: (1) a numeric / geometric / indexing slip inside the core computation this property is about, one that only shows for an unusual but valid geometry or regime (extreme ring count, very different wall or gap thicknesses, bare rods, a flow regime boundary, a cell type that rarely limits, the last/first cell or step, a region or power-cell boundary falling at an awkward place); (2) a state / ordering / caching / copy problem that needs two or more assemblies, regions, time points, calls or runs in a particular order to show; (3) a problem at the edges of the calculation: the input reader, unit conversion, defaults and rarely used options, or the way results are collected, stored and written out (csv / dassh.out tables) - anything through which a user relies on the property without looking at internal arrays. Prefer places that the other two changes do not touch.""" if wave3 else ''))
